@@ -3,7 +3,7 @@
    expression evaluation to the local-label scope, replacement of an inert program segment. *)
 From Coq Require Import ZArith List String Ascii Bool NArith Lia.
 From Verif Require Import Base.Res Base.Bytes Spec.PDP11 Spec.Arith Gen.GenGetAsInt Gen.GenOpcodes
-  Model.Insns Model.Directives Model.Asm Proofs.AsmP.
+  Model.Insns Model.Directives Model.Asm Model.AsmT Proofs.AsmP.
 Import ListNotations.
 Notation length := Datatypes.length.
 Notation concat := List.concat.
@@ -18,8 +18,6 @@ Ltac xinv H :=
       apply xbind_ok in H; destruct H as [a [Ha H]]
   end.
 
-Definition smem (s : string) (l : list string) : bool := existsb (String.eqb s) l.
-
 Lemma smem_In s l : smem s l = true <-> In s l.
 Proof.
   unfold smem. rewrite existsb_exists. split.
@@ -27,52 +25,8 @@ Proof.
   - intros H. exists s. split; [exact H|apply String.eqb_refl].
 Qed.
 
-(* ---- which names an expression / a statement mentions --------------------------------------- *)
-Fixpoint efree (names : list string) (e : expr) : bool :=
-  match e with
-  | Sym s => negb (smem s names)
-  | Un _ x | Group _ x => efree names x
-  | Bin _ l r => efree names l && efree names r
-  | _ => true
-  end.
-
-Definition ofree (names : list string) (o : aoperand) : bool :=
-  match o with
-  | AReg r | ARegDef r | AAutoInc r | AAutoIncDef r | AAutoDec r | AAutoDecDef r
-  | AImm r | AAbs r | ARel r | ARelDef r => efree names r
-  | AIndex x r | AIndexDef x r => efree names x && efree names r
-  | AAcc _ => true
-  end.
-
-Definition cfree (names : list string) (c : achunk) : bool :=
-  match c with CStr _ => true | CCode e => efree names e end.
-
-(* a statement that defines nothing, fixes nothing and mentions none of [names]: the only statements
-   allowed inside a .repeat body by the code; nested repeats allowed *)
-Fixpoint plainf (names : list string) (s : stmt) : bool :=
-  match s with
-  | Insn _ ops => forallb (ofree names) ops
-  | Byte es | Word es | Dword es | WordList es => forallb (efree names) es
-  | Blkb e | Blkw e | Align e => efree names e
-  | Ascii _ cs | Rad50 cs => forallb (cfree names) cs
-  | Even | Odd | Insert _ | NoOp => true
-  | Repeat ce body =>
-      efree names ce && (fix go (l : list stmt) : bool := match l with [] => true | x :: r => plainf names x && go r end) body
-  | _ => false
-  end.
-
 Lemma plainf_repeat names ce body : plainf names (Repeat ce body) = efree names ce && forallb (plainf names) body.
 Proof. reflexivity. Qed.
-
-(* names of the local labels written anywhere in a program *)
-Fixpoint lnames_stmt (s : stmt) : list string :=
-  match s with
-  | LocalLabel n => [n]
-  | Repeat _ body | Include _ body =>
-      (fix go (l : list stmt) : list string := match l with [] => [] | x :: r => lnames_stmt x ++ go r end) body
-  | _ => []
-  end.
-Definition lnames (l : list stmt) : list string := flat_map lnames_stmt l.
 
 Lemma lnames_nested body :
   (fix go (l : list stmt) : list string := match l with [] => [] | x :: r => lnames_stmt x ++ go r end) body = lnames body.
@@ -494,7 +448,6 @@ Lemma lnames_quiet X : Forall quiet X -> lnames X = [].
 Proof. induction 1 as [|y Y [Hy _] _ IHY]; simpl; [reflexivity|]. rewrite Hy. exact IHY. Qed.
 
 (* where the segment ends up after cut_end *)
-Definition is_end (s : stmt) : bool := match s with End => true | _ => false end.
 Lemma cut_end_cons x l : is_end x = false -> cut_end (x :: l) = x :: cut_end l.
 Proof. destruct x; simpl; intros H; try reflexivity; discriminate. Qed.
 
